@@ -191,8 +191,19 @@ pub fn run_c02(a: &Args) {
         if tamper && rng.chance(4, 5) { sc.expiry = 21600; }
         let age = if tamper && sc.expiry == 21600 { 0 } else { *rng.pick(&[0u64, 0, 0, 1, 59, 60, 61, 21599, 21600, 21601, 1_000_000]) };
         let ts = if tamper && sc.expiry == 21600 { t } else { match rng.below(8) { 0 => t.saturating_sub(sc.expiry.min(t)), 1 => t.saturating_sub(sc.expiry.min(t)).saturating_sub(1), 2 => t + 100, _ => t.saturating_sub(age) } };
-        let ip_same = (tamper && sc.expiry == 21600) || !rng.chance(1, 5);
-        let addr = if ip_same { format!("{}", std::net::SocketAddr::new(sc.client_addr.ip(), 9)) } else { rng.pick(&["10.9.9.9:1", "[2001:db8::99]:2", "127.0.0.2:25564"]).to_string() };
+        // every sixteenth cookie is valid in everything but the host: it names a cross-family look-alike of the client's address
+        let lookalike = n % 16 == 6;
+        if lookalike { sc.expiry = 21600; }
+        let ts = if lookalike { t } else { ts };
+        let ip_same = !lookalike && ((tamper && sc.expiry == 21600) || !rng.chance(1, 5));
+        let addr = if ip_same { format!("{}", std::net::SocketAddr::new(sc.client_addr.ip(), 9)) } else if lookalike || rng.chance(1, 2) {
+            // another host whose address merely LOOKS like the client's across the address families: the IPv4-compatible and
+            // IPv4-mapped IPv6 forms of an IPv4 client, the IPv4 form of an IPv6 client's low 32 bits
+            match sc.client_addr.ip() {
+                std::net::IpAddr::V4(a) => format!("[{}]:9", if rng.chance(1, 2) { a.to_ipv6_compatible() } else { a.to_ipv6_mapped() }),
+                std::net::IpAddr::V6(a) => { let o = a.octets(); if o[..10] == [0u8; 10] && o[10] == 0xff && o[11] == 0xff { format!("{}.{}.{}.{}:9", o[12], o[13], o[14], o[15]) } else if rng.chance(1, 2) { format!("{}.{}.{}.{}:9", o[12], o[13], o[14], o[15]) } else { "[2001:db8::99]:2".to_string() } }
+            }
+        } else { rng.pick(&["10.9.9.9:1", "[2001:db8::99]:2", "127.0.0.2:25564"]).to_string() };
         let props = if rng.chance(1, 2) { serde_json::json!([]) } else { serde_json::json!([{"name": "textures", "value": "dg==", "signature": null}]) };
         let (cname, cid): (String, u128) = match rng.below(5) { 0 => (plan.claimed_name.clone(), 0xc00c1e), 1 => ("CookieName".into(), plan.claimed_uuid), 2 => (plan.claimed_name.clone(), plan.claimed_uuid), _ => ("CookieName".into(), 0xc00c1e + u128::from(rng.below(2))) };
         // a client that holds back its cookie: valid when the connection opened, expired when presented
@@ -240,7 +251,7 @@ pub fn auth_name_cases(rng: &mut Rng, n: usize) -> Vec<Case> {
     for i in 0..n {
         let mut plan = gen_plan(rng);
         plan.intent = 3;
-        plan.claimed_name = rng.pick(&["Mallory", "a&serverId=0", "Ünï", "x y"]).to_string();
+        plan.claimed_name = rng.pick(&["Mallory", "a&serverId=0", "Ünï", "x y", "Victim\u{0}", "a\tb\r\nc", "\u{1b}[2JAdmin", "", "bell\u{7}", "nel\u{85}"]).to_string();
         let secret = Some(rng.bytes(24));
         plan.routing = routing_steps(rng);
         let v0 = Verdicts0::get(rng, &plan);
